@@ -11,6 +11,7 @@ import PygProofs.Lemmas.WaiterLemmas
 import PygModel.LiftX
 import PygModel.Txt
 import PygProofs.Lemmas.LiftXLemmas
+import PygProofs.Lemmas.LiftXRecLemmas
 import PygModel.WaiterF
 import PygProofs.Lemmas.WaiterFLemmas
 import PygModel.WaiterLog
@@ -1728,5 +1729,26 @@ theorem waiterL_confluent (w : W) (res : Nat → Val) (σ : List Nat) (h : σ.Pe
 theorem waiterL_suspended (w : W) (res : Nat → Val) (σ : List Nat) (h : ∃ i ∈ awaitables w, i ∉ σ) :
     (runEventsL w (σ.map fun i => (i, res i))).result = none := by
   rw [waiterL_result]; exact waiter_suspended w res σ h
+
+
+/-! ### `liftx_refines` for the recording function of the extended driver -/
+
+/-- **Refinement up to the leaf results.**  `liftx_refines` wants a leaf function that returns, on plain arguments, exactly the
+embedded result of the plain one (`Extends`; instantiated for the identity).  The recording function of the `liftx` driver
+returns an opaque record OBJECT where the plain recorder returns a tuple, so they are related only up to a map `g` of the
+results that goes through lists, tuples and dicts: then the extended model, mapped, is the model of the statement. -/
+theorem liftx_refines_upto (g : XVal → XVal) (hg : ThroughContainers g) (T : LoopTypes) (f' : XLeafFn) (f : LeafFn)
+    (hl : T.list = true) (ht : T.tuple = true) (hd : T.dicts.contains 0 = true) (hf : ExtendsUpTo g f' f)
+    (v : Val) (args : List Val) (kw : KW) :
+    (wrappedX T f' v.emb (Val.embList args) (Val.embKVs kw)).map g = (wrapped f v args kw).map Val.emb :=
+  wrappedX_embed_upto g hg T f' f hl ht hd hf v args kw
+
+/-- … and the two recording functions ARE so related (`XVal.unobj` reads a record object as the tuple of its fields and leaves
+plain values alone): what the `liftx` lines compare on plain lists / tuples / dicts is what the `lift call` lines compare. -/
+theorem liftx_refines_recorder (T : LoopTypes) (hl : T.list = true) (ht : T.tuple = true) (hd : T.dicts.contains 0 = true)
+    (v : Val) (args : List Val) (kw : KW) :
+    (wrappedX T recorderX v.emb (Val.embList args) (Val.embKVs kw)).map XVal.unobj =
+      (wrapped recorder v args kw).map Val.emb :=
+  liftx_refines_upto XVal.unobj unobj_through T recorderX recorder hl ht hd recorderX_extends v args kw
 
 end Pyg.Props.C19
